@@ -620,6 +620,15 @@ Proof.
     destruct Hin as [Hx|Hin]; [left; auto | right; eapply IHl; eauto].
 Qed.
 
+Lemma remove1_other j0 j l l' : remove1 j0 l = Some l' -> In j l -> j <> j0 -> In j l'.
+Proof.
+  revert l'; induction l; simpl; intros l' H Hin Hne; try contradiction.
+  destruct (Nat.eqb_spec a j0).
+  - inversion H; subst. destruct Hin; auto. congruence.
+  - destruct (remove1 j0 l) eqn:E; try discriminate. inversion H; subst.
+    destruct Hin as [->|Hin]; [left; auto | right; eauto].
+Qed.
+
 Lemma sd_trans_pend st l s s' j :
   sd_trans st l s s' -> In j (pend_of (dpc s')) -> In j (pend_of (dpc s)) \/ In j (reg st).
 Proof.
@@ -1106,6 +1115,33 @@ Definition sd_ok (s : sd) : Prop :=
   | _ => True
   end.
 
+Definition creq_at (st : state) (j : nat) : bool :=
+  match nth_error (jobs st) j with Some jb => creq jb | None => false end.
+
+Lemma job_trans_creq fl l jb jb' : job_trans fl l jb jb' ->
+  (creq jb = true -> creq jb' = true) /\ (match l with LSdCancel _ _ => creq jb' = true | _ => True end).
+Proof.
+  unfold fin0, cancel0, kill0, set_creq, set_slock.
+  destruct jb as [t sb s w p e o n cr sl]; destruct l; simpl; intros Ht; try contradiction.
+  all: try (destruct ok); try (destruct cr); simpl in *.
+  all: repeat match goal with H : _ /\ _ |- _ => destruct H end; subst; simpl in *.
+  all: try (destruct p; simpl in * ); auto.
+Qed.
+
+Lemma creq_mono st l st' j : step st l = Some st' -> creq_at st j = true -> creq_at st' j = true.
+Proof.
+  intros H Hc. unfold creq_at in *. destruct (nth_error (jobs st) j) as [jb|] eqn:Hn; try discriminate.
+  destruct (step_job_fwd _ _ _ _ _ H Hn) as [(Hn' & _) | (_ & jb' & Hn' & Ht)]; rewrite Hn'; auto.
+  apply (job_trans_creq _ _ _ _ Ht); auto.
+Qed.
+
+Lemma cancel_sets_creq st k j st' : step st (LSdCancel k j) = Some st' -> creq_at st' j = true.
+Proof.
+  intros H. pose proof (step_jobs _ _ _ H) as HJ. simpl in HJ. destruct HJ as (jb & jb' & Hn & Hjs & Ht).
+  unfold creq_at. rewrite Hjs, nth_set_nth_eq; [|apply nth_error_Some; congruence].
+  destruct Ht as (_ & ->). unfold cancel0, kill0, set_creq; simpl. destruct (proc jb); reflexivity.
+Qed.
+
 Record sinv (st : state) : Prop := {
   s_flag : forall k s, nth_error (sds st) k = Some s -> dpc s <> DSet -> flag st = true;
   s_sdok : forall k s, nth_error (sds st) k = Some s -> sd_ok s;
@@ -1115,6 +1151,13 @@ Record sinv (st : state) : Prop := {
              match dpc s with
              | DUnlock pend | DJoin pend => forall j, In j (reg st) -> In j pend \/ finished st j = true
              | DDone => forall j, In j (reg st) -> finished st j = true
+             | _ => True
+             end;
+  (* shutdown(wait=False): every registered job still has its cancel task pending, or the cancel was requested *)
+  s_cancel : forall k s, nth_error (sds st) k = Some s -> swait s = false ->
+             match dpc s with
+             | DCancel pend => forall j, In j (reg st) -> In j pend \/ creq_at st j = true
+             | DDone => forall j, In j (reg st) -> creq_at st j = true
              | _ => True
              end
 }.
@@ -1219,6 +1262,7 @@ Proof.
   - intros (k & s & Hn & Hp). apply nth_error_In, in_map_iff in Hn. destruct Hn as (x & <- & _). discriminate.
   - intros j jb Hn Hp. apply nth_error_In, in_map_iff in Hn. destruct Hn as (x & <- & _). discriminate.
   - intros k s Hn Hw. apply nth_error_In, in_map_iff in Hn. destruct Hn as (x & <- & _). exact I.
+  - intros k s Hn Hw. apply nth_error_In, in_map_iff in Hn. destruct Hn as (x & <- & _). exact I.
 Qed.
 
 Lemma closed_flag st : sinv st -> closed st -> flag st = true.
@@ -1299,6 +1343,32 @@ Proof.
       * (* return *) destruct Ht as ([Hd|Hd] & ->); rewrite Hd in *.
         -- congruence.
         -- rewrite HR. intros j Hin. destruct (Hj j Hin) as [[]|Hfin]. eapply finished_mono; eauto.
+  - (* s_cancel *)
+    intros k s' Hn Hw. destruct (step_sd_at _ _ _ _ _ H Hn) as [(Ho & _) | (Hke & s & Ho & Ht)].
+    + pose proof (s_cancel _ S _ _ Ho Hw) as Hj.
+      destruct (dpc s') eqn:Ed; auto.
+      all: assert (C : closed st) by (exists k, s'; rewrite Ed; auto);
+           rewrite (reg_same_if_closed _ _ _ S C H); intros j Hin; specialize (Hj j Hin).
+      * destruct Hj; auto. right. eapply creq_mono; eauto.
+      * eapply creq_mono; eauto.
+    + pose proof (s_sdok _ S _ _ Ho) as Hok. unfold sd_ok in Hok.
+      destruct Ht as (Hsw & Ht). rewrite Hsw in Hw. pose proof (s_cancel _ S _ _ Ho Hw) as Hj.
+      destruct l; try contradiction; simpl in HR.
+      * (* set *) destruct Ht as (_ & ->). exact I.
+      * (* acquire *) destruct Ht as (_ & ->). rewrite Hw. rewrite HR. intros j Hin. auto.
+      * (* cancel *) destruct Ht as (p0 & p1 & Hd & Hrm & ->). rewrite Hd in Hj. rewrite HR.
+        simpl in Hke. inversion Hke; subst k0.
+        intros j0 Hin. destruct (Hj j0 Hin) as [Hp | Hc].
+        -- destruct (Nat.eq_dec j0 j) as [->|Hne].
+           ++ right. eapply cancel_sets_creq; eauto.
+           ++ left. eapply remove1_other; eauto.
+        -- right. eapply creq_mono; eauto.
+      * (* snap *) destruct Ht as (_ & ->). exact I.
+      * (* release *) destruct Ht as (pend & _ & ->). exact I.
+      * (* join *) destruct Ht as (j0 & rest & _ & _ & ->). exact I.
+      * (* return *) destruct Ht as ([Hd|Hd] & ->); rewrite Hd in *.
+        -- rewrite HR. intros j Hin. destruct (Hj j Hin) as [[]|Hc]. eapply creq_mono; eauto.
+        -- congruence.
 Qed.
 
 Definition inv (st : state) : Prop := ginv st /\ sinv st.
@@ -1504,21 +1574,62 @@ Qed.
 
 (* ... and shutdown() has run such a cancel task for every process that existed when it took
    the lock, by the time it returns (either kind of shutdown) *)
-Lemma remove1_other j0 j l l' : remove1 j0 l = Some l' -> In j l -> j <> j0 -> In j l'.
-Proof.
-  revert l'; induction l; simpl; intros l' H Hin Hne; try contradiction.
-  destruct (Nat.eqb_spec a j0).
-  - inversion H; subst. destruct Hin; auto. congruence.
-  - destruct (remove1 j0 l) eqn:E; try discriminate. inversion H; subst.
-    destruct Hin as [->|Hin]; [left; auto | right; eauto].
-Qed.
-
 (* (4) shutdown() never terminates with an exception *)
 Lemma shutdown_never_raises cfgs waits sched st k :
   run (init cfgs waits) sched = Some st -> ~ shutdown_raised k sched.
 Proof.
   intros H Hin. destruct (run_In _ _ _ _ H Hin) as (a & b & s1 & s2 & _ & _ & Hs & _).
   simpl in Hs. discriminate.
+Qed.
+
+(* (5) the full clause (was refuted: F6, repaired by 1eaaf0c): when ANY shutdown() call has returned no
+   solver process runs -- and none will be spawned: a job whose cancel was requested never spawns *)
+Lemma creq_not_running st j jb :
+  inv st -> nth_error (jobs st) j = Some jb -> creq jb = true -> proc jb <> PRun /\ wpc jb <> WSpawn.
+Proof. intros (G & _) Hn Hc. apply (Forall_nth _ _ _ _ (g_jobs2 _ G) Hn); auto. Qed.
+
+Lemma no_process_after_shutdown cfgs waits sched st k :
+  run (init cfgs waits) sched = Some st -> returned st k = true -> forall j, running st j = false.
+Proof.
+  intros H Hr j.
+  assert (I : inv st) by (eapply run_inv; [apply init_inv|eauto]).
+  pose proof Hr as Hr0. unfold returned in Hr. destruct (nth_error (sds st) k) as [s|] eqn:Hn; try discriminate.
+  destruct (dpc s) eqn:Hd; try discriminate.
+  pose proof (swait_of _ _ _ _ _ _ H Hn) as Hw.
+  destruct (swait s) eqn:Ew.
+  - apply (wait_shutdown_complete _ _ _ _ _ H Hw Hr0 j).
+  - destruct I as (G & S). pose proof (s_cancel _ S _ _ Hn Ew) as Hc. rewrite Hd in Hc.
+    unfold running. destruct (nth_error (jobs st) j) as [jb|] eqn:Hjb; auto.
+    destruct (proc jb) eqn:Hp; auto. exfalso.
+    assert (Hreg : In j (reg st)).
+    { apply (job_running_registered st j jb (conj G S) Hjb).
+      pose proof (Forall_nth _ _ _ _ (g_jobs _ G) Hjb) as Hok. unfold job_ok in Hok.
+      intros Hwn. rewrite Hwn in Hok. intuition congruence. }
+    specialize (Hc j Hreg). unfold creq_at in Hc. rewrite Hjb in Hc.
+    destruct (creq_not_running st j jb (conj G S) Hjb Hc). congruence.
+Qed.
+
+Lemma run_creq sched : forall st st' j, creq_at st j = true -> run st sched = Some st' -> creq_at st' j = true.
+Proof.
+  induction sched; simpl; intros st st' j C H.
+  - inversion H; subst; auto.
+  - destruct (step st a) eqn:E; try discriminate. eapply IHsched; [|eauto]. eapply creq_mono; eauto.
+Qed.
+
+Lemma no_spawn_after_cancel cfgs waits sched st j :
+  run (init cfgs waits) sched = Some st -> ~ spawned_after_cancel j sched.
+Proof.
+  intros H (pre & post & k & -> & Hin).
+  destruct (run_split _ _ _ _ _ H) as (s1 & s2 & Ha & Hs & Hb).
+  assert (I2 : inv s2).
+  { eapply step_inv_pres; eauto. eapply run_inv; [apply init_inv|eauto]. }
+  pose proof (cancel_sets_creq _ _ _ _ Hs) as C2.
+  destruct (run_In _ _ _ _ Hb Hin) as (a & b & s3 & s4 & -> & Ha3 & Hs3 & _).
+  assert (I3 : inv s3) by (eapply run_inv; eauto).
+  pose proof (run_creq _ _ _ _ C2 Ha3) as C3.
+  apply step_jobs in Hs3. simpl in Hs3. destruct Hs3 as (jb & jb' & Hn & _ & Hw & _).
+  unfold creq_at in C3. rewrite Hn in C3.
+  destruct (creq_not_running _ _ _ I3 Hn C3). congruence.
 Qed.
 
 (* ------------------------------------------------------------------ cancel(): kill escalation and exception paths *)
